@@ -12,6 +12,12 @@ package main
 //       a stub API server and 2-3 stub keepstores; every request of a sweep is
 //       made to fail once in each failure mode.
 //
+//   Redirect answers (streams "paging-redirect" and the redirect modes of
+//   "failstop"): the API endpoint / keepstore answers one request with a
+//   301/302/303/307/308 whose target fails, serves a well-formed empty answer,
+//   is dead, or is not named at all. Those runs use the http client the
+//   product uses (arvados.NewClientFromConfig, Client == nil).
+//
 // Part (b) lives in sdk/go/arvados, sdk/go/keepclient and services/keepstore.
 
 import (
@@ -23,11 +29,13 @@ import (
 	"net"
 	"net/http"
 	"net/http/httptest"
+	"net/url"
 	"regexp"
 	"sort"
 	"strconv"
 	"strings"
 	"sync"
+	"sync/atomic"
 	"testing"
 	"time"
 
@@ -493,6 +501,149 @@ func (tb *c06Table) ServeHTTP(w http.ResponseWriter, r *http.Request) {
 }
 
 // ------------------------------------------------------------------------
+// redirect answers
+// ------------------------------------------------------------------------
+
+var c06RedirStatuses = []int{301, 302, 303, 307, 308}
+
+// where the redirect points
+var c06RedirTargets = []string{
+	"failing-target",      // a maintenance page: 503, text/html
+	"empty-answer-target", // 200 and a well-formed EMPTY answer of the requested kind (empty list / empty index)
+	"dead-target",         // a port that accepts and drops every connection
+	"no-location",         // 3xx without a Location header
+}
+
+const c06TargetPrefix = "/verif-redirect-target/"
+
+// c06Redirector produces redirect answers and serves their targets, counting
+// what reaches the targets (so that the oracle knows what the client under
+// test actually received).
+type c06Redirector struct {
+	dead        net.Listener
+	deadAccepts int64
+	mu          sync.Mutex
+	hits        map[string]int // target kind -> requests that reached it
+}
+
+func c06NewRedirector() *c06Redirector {
+	rd := &c06Redirector{hits: map[string]int{}}
+	ln, err := net.Listen("tcp", "127.0.0.1:0")
+	if err != nil {
+		panic("verif: listen: " + err.Error())
+	}
+	rd.dead = ln
+	go func() {
+		for {
+			conn, err := ln.Accept()
+			if err != nil {
+				return
+			}
+			atomic.AddInt64(&rd.deadAccepts, 1)
+			if tc, ok := conn.(*net.TCPConn); ok {
+				tc.SetLinger(0)
+			}
+			conn.Close()
+		}
+	}()
+	return rd
+}
+
+func (rd *c06Redirector) Close() { rd.dead.Close() }
+
+func (rd *c06Redirector) reset() {
+	rd.mu.Lock()
+	rd.hits = map[string]int{}
+	rd.mu.Unlock()
+	atomic.StoreInt64(&rd.deadAccepts, 0)
+}
+
+func (rd *c06Redirector) reached(target string) int {
+	if target == "dead-target" {
+		return int(atomic.LoadInt64(&rd.deadAccepts))
+	}
+	rd.mu.Lock()
+	defer rd.mu.Unlock()
+	return rd.hits[target]
+}
+
+// answer writes the redirect. typ is the kind of the redirected request
+// (collections-page, collections-count, index, ...).
+func (rd *c06Redirector) answer(w http.ResponseWriter, r *http.Request, status int, target, typ string) {
+	ioutil.ReadAll(r.Body)
+	loc := ""
+	switch target {
+	case "failing-target", "empty-answer-target":
+		loc = c06TargetPrefix + target + "?kind=" + typ
+	case "dead-target":
+		loc = "http://" + rd.dead.Addr().String() + "/moved"
+	case "no-location":
+	default:
+		panic("verif: unknown redirect target " + target)
+	}
+	if loc != "" {
+		w.Header().Set("Location", loc)
+	}
+	w.Header().Set("Content-Type", "text/html; charset=utf-8")
+	w.WriteHeader(status)
+	fmt.Fprintf(w, "<html><head><title>%d %s</title></head><body>The document has moved.</body></html>\n", status, http.StatusText(status))
+}
+
+// serveTarget answers a request for one of the redirect targets; false if r
+// is not such a request. count says whether the request belongs to the
+// current run (stragglers of an earlier one are answered but not counted).
+func (rd *c06Redirector) serveTarget(w http.ResponseWriter, r *http.Request, count bool) bool {
+	if !strings.HasPrefix(r.URL.Path, c06TargetPrefix) {
+		return false
+	}
+	target := strings.TrimPrefix(r.URL.Path, c06TargetPrefix)
+	if count {
+		rd.mu.Lock()
+		rd.hits[target]++
+		rd.mu.Unlock()
+	}
+	ioutil.ReadAll(r.Body)
+	switch target {
+	case "empty-answer-target":
+		switch r.URL.Query().Get("kind") {
+		case "index":
+			w.Header().Set("Content-Type", "text/plain")
+			w.Write([]byte("\n"))
+		case "collections-page":
+			w.Header().Set("Content-Type", "application/json")
+			w.Write([]byte(`{"kind":"arvados#collectionList","items":[]}`))
+		default:
+			w.Header().Set("Content-Type", "application/json")
+			w.Write([]byte(`{"kind":"arvados#collectionList","items":[],"items_available":0}`))
+		}
+	default:
+		w.Header().Set("Content-Type", "text/html; charset=utf-8")
+		w.WriteHeader(http.StatusServiceUnavailable)
+		w.Write([]byte("<html><body><h1>503 Service Unavailable</h1>down for maintenance</body></html>\n"))
+	}
+	return true
+}
+
+// c06ProductClient builds the API client the way keep-balance does
+// (NewClientFromConfig: no explicit http.Client, so the package's default
+// client for the TLS setting is used).
+func c06ProductClient(apiURL, token string, insecure bool) (*arvados.Client, *arvados.Cluster) {
+	u, err := url.Parse(apiURL)
+	if err != nil {
+		panic("verif: " + err.Error())
+	}
+	cluster := &arvados.Cluster{}
+	cluster.Services.Controller.ExternalURL = arvados.URL(*u)
+	cluster.TLS.Insecure = insecure
+	client, err := arvados.NewClientFromConfig(cluster)
+	if err != nil {
+		panic("verif: NewClientFromConfig: " + err.Error())
+	}
+	client.AuthToken = token
+	return client, cluster
+}
+
+// ------------------------------------------------------------------------
 // (a) paging histories
 // ------------------------------------------------------------------------
 
@@ -505,16 +656,25 @@ type c06Mut struct {
 }
 
 type c06PageCase struct {
-	N         int    `json:"n"`
-	PageSize  int    `json:"page_size"`
-	ServerMax int    `json:"server_max_page"`
-	ShortNum  int    `json:"short_page_chance_of_4"`
-	TieMode   string `json:"tie_mode"`
-	MaxTie    int    `json:"max_tie"`
-	Gran      string `json:"granularity"`
-	MutRate   int    `json:"mutation_chance_of_8"`
-	Budget    int    `json:"mutation_budget"`
-	LongUUID  bool   `json:"long_uuids"`
+	N         int           `json:"n"`
+	PageSize  int           `json:"page_size"`
+	ServerMax int           `json:"server_max_page"`
+	ShortNum  int           `json:"short_page_chance_of_4"`
+	TieMode   string        `json:"tie_mode"`
+	MaxTie    int           `json:"max_tie"`
+	Gran      string        `json:"granularity"`
+	MutRate   int           `json:"mutation_chance_of_8"`
+	Budget    int           `json:"mutation_budget"`
+	LongUUID  bool          `json:"long_uuids"`
+	Redirect  *c06RedirPlan `json:"redirect,omitempty"`
+}
+
+// c06RedirPlan: the AtPage-th page request of the scan is answered with a redirect.
+type c06RedirPlan struct {
+	AtPage int    `json:"at_page_request"`
+	Status int    `json:"status"`
+	Target string `json:"target"`
+	Client string `json:"http_client"` // default-secure | default-insecure (arvados.Client without an explicit http.Client)
 }
 
 type c06PageWitness struct {
@@ -653,17 +813,75 @@ func c06NClass(n int) string {
 }
 
 func c06RunPaging(t *testing.T, run *verifkit.Run) {
+	c06RunPagingStream(t, run, "paging", run.N(2000, 50000), false)
+	c06RunPagingStream(t, run, "paging-redirect", run.N(600, 12000), true)
+}
+
+func c06RunPagingStream(t *testing.T, run *verifkit.Run, stream string, n int, redirects bool) {
 	tb := c06NewTable()
-	srv := httptest.NewServer(tb)
+	rd := c06NewRedirector()
+	defer rd.Close()
+	var rmu sync.Mutex
+	var rplan *c06RedirPlan
+	rpages, rfired := 0, 0
+	srv := httptest.NewServer(http.HandlerFunc(func(w http.ResponseWriter, r *http.Request) {
+		if rd.serveTarget(w, r, true) {
+			return
+		}
+		rmu.Lock()
+		plan := rplan
+		hit := false
+		if plan != nil && r.URL.Path == "/arvados/v1/collections" {
+			r.ParseForm()
+			if r.Form.Get("limit") != "0" {
+				rpages++
+				if rpages == plan.AtPage {
+					hit = true
+					rfired++
+				}
+			}
+		}
+		rmu.Unlock()
+		if hit {
+			rd.answer(w, r, plan.Status, plan.Target, "collections-page")
+			return
+		}
+		tb.ServeHTTP(w, r)
+	}))
 	defer srv.Close()
 	httpc := &http.Client{Transport: &http.Transport{MaxIdleConnsPerHost: 4, DisableCompression: true}, Timeout: 5 * time.Minute}
 	defer httpc.CloseIdleConnections()
 	host := strings.TrimPrefix(srv.URL, "http://")
 
-	n := run.N(2000, 50000)
-	run.Cases("paging", n, func(i int, rng *verifkit.Rand) {
+	firedTotal, casesRun := 0, 0
+	run.Cases(stream, n, func(i int, rng *verifkit.Rand) {
 		c := c06GenPageCase(rng)
 		groups := c06TieGroups(rng, &c)
+		if redirects {
+			if c.N == 0 {
+				c.N = rng.Range(1, 30)
+				groups = c06TieGroups(rng, &c)
+			}
+			eff := c.PageSize
+			if eff <= 0 || eff > c.N {
+				eff = c.N
+			}
+			if c.ServerMax > 0 && c.ServerMax < eff {
+				eff = c.ServerMax
+			}
+			pages := (c.N + eff - 1) / eff
+			c.Redirect = &c06RedirPlan{
+				AtPage: rng.Range(1, pages+1),
+				Status: c06RedirStatuses[rng.Intn(len(c06RedirStatuses))],
+				Target: c06RedirTargets[rng.Intn(len(c06RedirTargets))],
+				Client: rng.PickStr("default-secure", "default-insecure"),
+			}
+		}
+		casesRun++
+		rd.reset()
+		rmu.Lock()
+		rplan, rpages, rfired = c.Redirect, 0, 0
+		rmu.Unlock()
 		run.Input(c, false)
 
 		var step time.Duration
@@ -828,6 +1046,9 @@ func c06RunPaging(t *testing.T, run *verifkit.Run) {
 
 		// ---- the real scan
 		client := &arvados.Client{Client: httpc, Scheme: "http", APIHost: host, AuthToken: "veriftoken"}
+		if c.Redirect != nil {
+			client, _ = c06ProductClient(srv.URL, "veriftoken", c.Redirect.Client == "default-insecure")
+		}
 		seen := map[string]int{}
 		calls := 0
 		err := EachCollection(ctx, client, c.PageSize, func(coll arvados.Collection) error {
@@ -840,6 +1061,34 @@ func c06RunPaging(t *testing.T, run *verifkit.Run) {
 		tb.before, tb.after, tb.short = nil, nil, nil
 		st := tb.stats
 		tb.mu.Unlock()
+		rmu.Lock()
+		redirFired := rfired > 0
+		rplan = nil
+		rmu.Unlock()
+		// what the client under test received in place of the redirected page
+		redirClass, redirReached, notJudged := "", 0, false
+		if redirFired {
+			firedTotal++
+			redirReached = rd.reached(c.Redirect.Target)
+			follow := "not-followed"
+			if redirReached > 0 {
+				follow = "followed"
+			}
+			redirClass = c.Redirect.Target + ":" + follow
+			run.Count("ar_redirects_answered", 1)
+			run.Count(fmt.Sprintf("ar_redirect_status_%d", c.Redirect.Status), 1)
+			run.Count("ar_redirect_"+redirClass, 1)
+			run.Count("ar_client_"+c.Redirect.Client, 1)
+			if c.Redirect.Target == "empty-answer-target" && redirReached > 0 {
+				// the client followed the redirect and was handed a well-formed
+				// 200 empty list by the endpoint while matching rows exist:
+				// excluded by the assumptions, not judged
+				notJudged = true
+				run.Count("ar_not_judged_followed_to_wellformed_empty_list", 1)
+			}
+		} else if c.Redirect != nil {
+			run.Count("ar_redirect_page_never_requested", 1)
+		}
 
 		// ---- oracle
 		run.Eval(1)
@@ -876,6 +1125,10 @@ func c06RunPaging(t *testing.T, run *verifkit.Run) {
 		if nMod+nAdd+nDel > 0 {
 			mutClass = "mutating"
 		}
+		missSig := "C06:a:collection-missed:" + mutClass
+		if redirFired {
+			missSig += ":page-request-answered-with-redirect:" + redirClass
+		}
 		witness := func(missed []string) c06PageWitness {
 			w := c06PageWitness{Case: c, Initial: initial, Mutations: muts, Missed: missed, Requests: reqLog}
 			if len(w.Initial) > 210 {
@@ -891,6 +1144,8 @@ func c06RunPaging(t *testing.T, run *verifkit.Run) {
 			run.Violation("C06:a:non-termination:"+mutClass,
 				fmt.Sprintf("EachCollection issued more than %d list requests for %d collections (page size %d, %d mutations applied, budget exhausted=%v) and was cancelled; last requests: %v",
 					bound, c.N, c.PageSize, len(muts), budget <= 0, c06LastN(reqLog, 6)), witness(nil))
+		case err == nil && notJudged:
+			run.Count("a_scans_completed", 1)
 		case err == nil:
 			var missed []string
 			for u := range required {
@@ -899,6 +1154,9 @@ func c06RunPaging(t *testing.T, run *verifkit.Run) {
 				}
 			}
 			sort.Strings(missed)
+			if redirFired {
+				run.Count("ar_scans_returning_nil_after_redirect_judged", 1)
+			}
 			if len(missed) > 0 {
 				// features of the first missed collection
 				u := missed[0]
@@ -928,15 +1186,22 @@ func c06RunPaging(t *testing.T, run *verifkit.Run) {
 				if modified {
 					modS = "modified-during-scan"
 				}
-				run.Violation("C06:a:collection-missed:"+mutClass,
-					fmt.Sprintf("EachCollection returned nil but never handed %d of the %d collections that existed throughout the scan to the callback (first: %s, %s, %s); N=%d page=%d server_max=%d max_tie=%d mutations=%d",
-						len(missed), len(required), strings.TrimSuffix(u, pad), tie, modS, c.N, c.PageSize, c.ServerMax, c.MaxTie, len(muts)), witness(missed))
+				redirS := ""
+				if redirFired {
+					redirS = fmt.Sprintf("; page request #%d was answered with HTTP %d, target %s (requests that reached the target: %d), http client %s", c.Redirect.AtPage, c.Redirect.Status, c.Redirect.Target, redirReached, c.Redirect.Client)
+				}
+				run.Violation(missSig,
+					fmt.Sprintf("EachCollection returned nil but never handed %d of the %d collections that existed throughout the scan to the callback (first: %s, %s, %s); N=%d page=%d server_max=%d max_tie=%d mutations=%d%s",
+						len(missed), len(required), strings.TrimSuffix(u, pad), tie, modS, c.N, c.PageSize, c.ServerMax, c.MaxTie, len(muts), redirS), witness(missed))
 				run.Count("a_missed:"+tie+":"+modS, 1)
 			}
 			run.Count("a_scans_completed", 1)
 		default:
 			run.Count("a_scans_failed", 1)
-			if mutClass == "static" {
+			if redirFired {
+				run.Count("ar_scans_failed_after_redirect", 1)
+			}
+			if mutClass == "static" && !redirFired {
 				run.Count("a_scans_failed_without_any_mutation", 1)
 				run.Note(fmt.Sprintf("(a) not judged: EachCollection failed on a static table: %v (case %+v)", err, c))
 			}
@@ -966,12 +1231,26 @@ func c06RunPaging(t *testing.T, run *verifkit.Run) {
 			if c.LongUUID {
 				form = "post"
 			}
-			run.Feature(fmt.Sprintf("a:N=%s:%s:%s:%s:short=%v:cap=%v:%s:%s", c06NClass(c.N), pc, c.TieMode, mc, c.ShortNum > 0, c.ServerMax > 0, c.Gran, form))
+			if c.Redirect != nil {
+				pos := "never-requested"
+				if redirFired {
+					pos = "later-page"
+					if c.Redirect.AtPage == 1 {
+						pos = "first-page"
+					}
+				}
+				run.Feature(fmt.Sprintf("ar:N=%s:%s:%s:%s:%s:%d:%s:%s:err=%v", c06NClass(c.N), pc, mc, form, pos, c.Redirect.Status, redirClass, c.Redirect.Client, err != nil))
+			} else {
+				run.Feature(fmt.Sprintf("a:N=%s:%s:%s:%s:short=%v:cap=%v:%s:%s", c06NClass(c.N), pc, c.TieMode, mc, c.ShortNum > 0, c.ServerMax > 0, c.Gran, form))
+			}
 		}
 		if i < 2 {
-			run.Sample(map[string]interface{}{"part": "a", "case": c, "requests": st.Requests, "callbacks": calls, "mutations": len(muts), "err": fmt.Sprint(err)})
+			run.Sample(map[string]interface{}{"part": "a", "stream": stream, "case": c, "requests": st.Requests, "callbacks": calls, "mutations": len(muts), "redirect": redirClass, "err": fmt.Sprint(err)})
 		}
 	})
+	if redirects && casesRun >= 20 && firedTotal == 0 {
+		run.Inconclusive("C06(a): no page request of the paging-redirect stream was ever answered with a redirect")
+	}
 }
 
 func c06LastN(s []string, n int) []string {
@@ -1009,6 +1288,9 @@ type c06World struct {
 	fc     *c06FaultCtl
 	mu     sync.Mutex
 	puts   []c06Put
+	// settings of the next sweep
+	status     int    // HTTP status of a redirect mode
+	clientKind string // "" = the harness's http.Client without keep-alive; default-secure | default-insecure = arvados.Client without explicit http.Client, as keep-balance builds it
 }
 
 type c06ReqKey struct {
@@ -1029,6 +1311,8 @@ type c06FaultCtl struct {
 	mode   string
 	fired  int
 	delays *c06Delays // nil = no injected delays
+	rd     *c06Redirector
+	status int // HTTP status of the redirect modes
 }
 
 // c06Delays is the source of the injected delays of the "failstop-delay"
@@ -1132,6 +1416,10 @@ func (fc *c06FaultCtl) reset(record bool, target, mode string) string {
 	fc.keys = nil
 	fc.target, fc.mode, fc.fired = target, mode, 0
 	fc.delays = nil
+	fc.status = 0
+	if fc.rd != nil {
+		fc.rd.reset()
+	}
 	return fc.token
 }
 
@@ -1174,8 +1462,19 @@ func c06Judged(typ string) bool {
 
 var c06Modes = []string{"http500", "reset", "truncated", "malformed"}
 
+// redirect modes are "redirect-to-" + one of c06RedirTargets
+const c06RedirModePrefix = "redirect-to-"
+
 func (fc *c06FaultCtl) wrap(server string, h http.Handler) http.Handler {
 	return http.HandlerFunc(func(w http.ResponseWriter, r *http.Request) {
+		if fc.rd != nil && strings.HasPrefix(r.URL.Path, c06TargetPrefix) {
+			// the client followed a redirect answer
+			fc.mu.Lock()
+			current := r.Header.Get("Authorization") == "OAuth2 "+fc.token
+			fc.mu.Unlock()
+			fc.rd.serveTarget(w, r, current)
+			return
+		}
 		id := server + " " + r.Method + " " + r.URL.Path
 		if r.URL.RawQuery != "" {
 			id += "?" + r.URL.RawQuery
@@ -1206,6 +1505,7 @@ func (fc *c06FaultCtl) wrap(server string, h http.Handler) http.Handler {
 			fc.fired++
 		}
 		delays := fc.delays
+		status := fc.status
 		fc.mu.Unlock()
 		if !hit {
 			switch typ {
@@ -1229,6 +1529,10 @@ func (fc *c06FaultCtl) wrap(server string, h http.Handler) http.Handler {
 				panic("verif: hijack: " + err.Error())
 			}
 			return conn
+		}
+		if strings.HasPrefix(mode, c06RedirModePrefix) {
+			fc.rd.answer(w, r, status, strings.TrimPrefix(mode, c06RedirModePrefix), typ)
+			return
 		}
 		switch mode {
 		case "http500":
@@ -1304,7 +1608,7 @@ type c06StopCase struct {
 const c06OldMtime = int64(1400000000000000000) // 2014, far older than any signature TTL
 
 func c06NewWorld(t *testing.T, rng *verifkit.Rand, moreColls int) (*c06World, c06StopCase) {
-	w := &c06World{table: c06NewTable(), fc: &c06FaultCtl{occ: map[string]int{}}}
+	w := &c06World{table: c06NewTable(), fc: &c06FaultCtl{occ: map[string]int{}, rd: c06NewRedirector()}}
 	var c c06StopCase
 	c.Stores = rng.Range(2, 3)
 	c.PageSize = rng.Range(1, 3)
@@ -1482,6 +1786,7 @@ func c06NewWorld(t *testing.T, rng *verifkit.Rand, moreColls int) (*c06World, c0
 }
 
 func (w *c06World) Close() {
+	w.fc.rd.Close()
 	w.api.Close()
 	for _, ks := range w.stores {
 		ks.srv.Close()
@@ -1497,6 +1802,7 @@ type c06SweepResult struct {
 	fired        int
 	stale        int
 	pages        int // collection pages served by the table during this sweep
+	reached      int // requests that reached the target of the redirect answer
 	keys         []c06ReqKey
 	timedOut     bool
 }
@@ -1506,7 +1812,10 @@ func (w *c06World) sweep(pageSize int, record bool, target, mode string, delays 
 	token := w.fc.reset(record, target, mode)
 	w.fc.mu.Lock()
 	w.fc.delays = delays
+	w.fc.status = w.status
 	w.fc.mu.Unlock()
+	clientKind := w.clientKind
+	w.status, w.clientKind = 0, ""
 	w.mu.Lock()
 	w.puts = nil
 	w.mu.Unlock()
@@ -1523,6 +1832,9 @@ func (w *c06World) sweep(pageSize int, record bool, target, mode string, delays 
 		Timeout:   5 * time.Minute,
 	}
 	cluster := &arvados.Cluster{}
+	if clientKind != "" {
+		client, cluster = c06ProductClient(w.api.URL, token, clientKind == "default-insecure")
+	}
 	cluster.Collections.BalanceCollectionBatch = pageSize
 	cluster.Collections.BalanceCollectionBuffers = 4
 	if delays != nil {
@@ -1567,6 +1879,9 @@ func (w *c06World) sweep(pageSize int, record bool, target, mode string, delays 
 	w.mu.Unlock()
 	w.fc.mu.Lock()
 	res.fired = w.fc.fired
+	if strings.HasPrefix(mode, c06RedirModePrefix) {
+		res.reached = w.fc.rd.reached(strings.TrimPrefix(mode, c06RedirModePrefix))
+	}
 	res.stale = w.fc.stale
 	w.fc.stale = 0
 	res.keys = append(res.keys, w.fc.keys...)
@@ -1639,21 +1954,36 @@ func c06RunFailStop(t *testing.T, run *verifkit.Run) {
 		}
 
 		type plan struct {
-			key  c06ReqKey
-			mode string
+			key    c06ReqKey
+			mode   string
+			status int
+			client string
 		}
 		var plans []plan
 		for _, k := range base.keys {
 			for _, m := range c06Modes {
-				plans = append(plans, plan{k, m})
+				plans = append(plans, plan{key: k, mode: m})
+			}
+			// redirect answers: every target for the judged request types (status
+			// and default http client drawn per plan), one drawn target otherwise
+			targets := c06RedirTargets
+			if !c06Judged(k.Type) {
+				targets = []string{c06RedirTargets[rng.Intn(len(c06RedirTargets))]}
+			}
+			for _, tg := range targets {
+				plans = append(plans, plan{key: k, mode: c06RedirModePrefix + tg,
+					status: c06RedirStatuses[rng.Intn(len(c06RedirStatuses))],
+					client: rng.PickStr("default-secure", "default-insecure")})
 			}
 		}
 		if firstPage != "" {
-			plans = append(plans, plan{c06ReqKey{ID: firstPage, Type: "collections-page"}, "empty-list"})
+			plans = append(plans, plan{key: c06ReqKey{ID: firstPage, Type: "collections-page"}, mode: "empty-list"})
 		} else {
 			run.Inconclusive("C06(c): no first collections page request found in the fault-free sweep")
 		}
 		for _, p := range plans {
+			isRedir := strings.HasPrefix(p.mode, c06RedirModePrefix)
+			w.status, w.clientKind = p.status, p.client
 			res := w.sweep(c.PageSize, false, p.key.ID, p.mode, nil)
 			if res.timedOut {
 				run.Inconclusive(fmt.Sprintf("C06(c): Balancer.Run did not finish within 4 minutes with %s on %s", p.mode, p.key.ID))
@@ -1684,6 +2014,27 @@ func c06RunFailStop(t *testing.T, run *verifkit.Run) {
 				return sb.String()
 			}
 			wit := map[string]interface{}{"case": c, "failed_request": p.key.ID, "request_type": p.key.Type, "mode": p.mode}
+			modeS := p.mode
+			if isRedir {
+				follow := "not-followed"
+				if res.reached > 0 {
+					follow = "followed"
+				}
+				modeS = fmt.Sprintf("HTTP %d %s, %s: %d requests reached the target; http client %s", p.status, p.mode, follow, res.reached, p.client)
+				wit["redirect_status"], wit["http_client"], wit["requests_that_reached_the_target"] = p.status, p.client, res.reached
+				run.Count("c_redirects_answered", 1)
+				run.Count(fmt.Sprintf("c_redirect_status_%d", p.status), 1)
+				run.Count("c_"+p.mode+"_"+follow, 1)
+				run.Count("c_client_"+p.client, 1)
+				if c06Judged(p.key.Type) && p.mode == c06RedirModePrefix+"empty-answer-target" && res.reached > 0 {
+					// the client followed the redirect and the endpoint handed it a
+					// well-formed, empty 200 answer although rows exist: a lying
+					// server is excluded by the assumptions; recorded, not judged
+					run.Count("c_not_judged_followed_to_wellformed_empty_answer", 1)
+					run.Feature(fmt.Sprintf("c:%s:%s:%d:%s:%s:%s:not-judged", p.key.Type, p.mode, p.status, follow, outcome, commit))
+					continue
+				}
+			}
 			if !c06Judged(p.key.Type) {
 				// recorded, not judged
 				run.Count("c_unjudged_"+p.key.Type+"_"+outcome+"_"+commit, 1)
@@ -1704,12 +2055,16 @@ func c06RunFailStop(t *testing.T, run *verifkit.Run) {
 			} else {
 				if len(res.nonEmpty) > 0 {
 					run.Violation("C06:c:commit-after-failed-"+p.key.Type+":"+p.mode,
-						fmt.Sprintf("request %q failed (%s) but Balancer.Run (err=%v) still sent non-empty lists:%s", p.key.ID, p.mode, res.err, detail()), wit)
+						fmt.Sprintf("request %q failed (%s) but Balancer.Run (err=%v) still sent non-empty lists:%s", p.key.ID, modeS, res.err, detail()), wit)
 				}
 				if res.err == nil {
 					run.Violation("C06:c:run-succeeds-after-failed-"+p.key.Type+":"+p.mode,
-						fmt.Sprintf("request %q failed (%s) but Balancer.Run returned nil", p.key.ID, p.mode), wit)
+						fmt.Sprintf("request %q failed (%s) but Balancer.Run returned nil", p.key.ID, modeS), wit)
 				}
+			}
+			if isRedir {
+				run.Feature(fmt.Sprintf("c:%s:%s:%d:followed=%v:%s:%s", p.key.Type, p.mode, p.status, res.reached > 0, outcome, commit))
+				continue
 			}
 			run.Feature(fmt.Sprintf("c:%s:%s:%s:%s", p.key.Type, p.mode, outcome, commit))
 		}
